@@ -19,6 +19,7 @@ def purification(st, nv):
 def native_check(cfg, env=None, seed=0, scale=1.0):
     rng = np.random.default_rng(seed)
     nv = cfg["nv"]
+    C.VIA[0] = cfg.get("via")
     st = C.make_state("mixed", nv, cfg["nh"], cfg["na"])
     C.randomize(st, rng, scale)
     C.set_env(st, env)
@@ -76,5 +77,10 @@ def bounded(tier, seed):
             n += 1
             if f:
                 bad.append(((nv, nh, na, s, scale), f[:2]))
+    for via in ("deepcopy", "pickle"):
+        f = native_check({"nv": 2, "nh": 2, "na": 2, "via": via}, None, seed + 7, 1.0)
+        n += 1
+        if f:
+            bad.append(((2, 2, 2, via), f[:2]))
     return {"driver": "drivers/C02.native_check", "label": "bounded", "evaluations": n, "failures": len(bad),
-            "bound": "float64, %d architectures x 2 random parameter draws" % len(archs), "first_failures": bad[:2]}
+            "bound": "float64, %d architectures x 2 random parameter draws; one state reached by deepcopy and one by a pickle round trip" % len(archs), "first_failures": bad[:2]}
